@@ -5387,3 +5387,84 @@ def ord21_file_loader_commits_after_open(P, R, L, rule="ORD-21"):
     R.check(rule, fn + "|state-committed-after-the-fallible-open", bool(opens) and n >= 2 and not bad, where(b),
             "no store to current_file_index / current_table_iter can be followed by the fallible find_table (a failed open leaves the pair untouched)",
             "; ".join(bad) or "%d stores, %d open sites" % (n, len(opens)))
+
+
+STATUS = ITER_TRAIT + "::status"
+STATUS_WRAPPERS = [
+    # (impl of RainDbIterator::status, the child field it has to hand on)
+    ("<iterator::CachingIterator as iterator::RainDbIterator>::status", "iterator"),
+    ("<versioning::file_iterators::FilesEntryIterator as iterator::RainDbIterator>::status", "current_table_iter"),
+    ("<versioning::file_iterators::MergingIterator as iterator::RainDbIterator>::status", "iterators"),
+    ("<iterator::DatabaseIterator as iterator::RainDbIterator>::status", "inner_iter"),
+]
+
+
+def err4_status_chain(P, R, L, rule="ERR-4"):
+    """`next` / `prev` have no error channel: the table iterator and the file-level iterator park the error that cut a step
+    short in `maybe_error` (ERR-1 checks the stores) and every iterator reports it through RainDbIterator::status. The
+    error reaches a consumer only if every wrapper hands its children's status on: CachingIterator, FilesEntryIterator,
+    MergingIterator (status and get_error — the one the compaction consults before installing its output) and
+    DatabaseIterator; and FilesEntryIterator keeps the status of a table iterator before it replaces it."""
+    def reaches_child_status(b, field):
+        for c in b.calls():
+            if b.is_cleanup(c.bb) or (c.declared_name or "") != STATUS:
+                continue
+            if any(field in o.path or (o.kind == "upvar") for o in origins(b, c.args[0])):
+                return True
+        # through a closure (`iter().find_map(|it| it.status())`, `as_ref().and_then(|it| it.status())`)
+        for c in b.calls():
+            if b.is_cleanup(c.bb):
+                continue
+            for cl in c.closure_args():
+                cb = P.bodies.get(cl)
+                if cb is not None and any((x.declared_name or "") == STATUS for x in cb.calls() if not cb.is_cleanup(x.bb)) and \
+                        field_reads(b, field):
+                    R.analysed(cb)
+                    return True
+        return False
+    n = 0
+    for fn, field in STATUS_WRAPPERS:
+        b = P.body(fn)
+        if b is None:
+            R.missing_anchor(rule, fn)
+            continue
+        R.analysed(b)
+        n += 1
+        R.check(rule, fn + "|hands-on-the-status-of-its-children", reaches_child_status(b, field), where(b),
+                "status() consults RainDbIterator::status of `%s`" % field, "")
+    for fn, field in (("<tables::table::TwoLevelIterator as iterator::RainDbIterator>::status", "maybe_error"),
+                      ("<versioning::file_iterators::FilesEntryIterator as iterator::RainDbIterator>::status", "maybe_error")):
+        b = P.body(fn)
+        if b is None:
+            R.missing_anchor(rule, fn)
+            continue
+        R.analysed(b)
+        n += 1
+        ret = [o for bb in range(b.n) if not b.is_cleanup(bb) for st in b.blocks[bb]["stmts"]
+               if st["k"] == "assign" and st["pl"]["l"] == 0 and not st["pl"]["p"] for op in st["rv"].get("ops", []) for o in origins(b, op)]
+        ret += [o for c in b.calls() if not b.is_cleanup(c.bb) and c.dest and c.dest["l"] == 0 and c.args for o in origins(b, c.args[0])]
+        R.check(rule, fn + "|reports-the-parked-error", any(field in o.path for o in ret), where(b),
+                "status() returns the error parked in `%s`" % field, "")
+    ge = P.body("versioning::file_iterators::MergingIterator::get_error")
+    if ge is None:
+        R.missing_anchor(rule, "MergingIterator::get_error")
+    else:
+        R.analysed(ge)
+        n += 1
+        R.check(rule, ge.path + "|includes-the-status-of-the-children", reaches_child_status(ge, "iterators"), where(ge),
+                "get_error (consulted by the compaction before it installs its output) also returns an error a child met while stepping", "")
+    st_ = P.body("versioning::file_iterators::FilesEntryIterator::set_table_iter")
+    if st_ is None:
+        R.missing_anchor(rule, "FilesEntryIterator::set_table_iter")
+    else:
+        R.analysed(st_)
+        n += 1
+        saves = [c.bb for c in st_.calls() if not st_.is_cleanup(c.bb) and
+                 ((c.declared_name or "") == STATUS or (P.bodies.get(c.t.get("resolved") or "") is not None and c.t.get("local") and
+                  any((x.declared_name or "") == STATUS for x in P.bodies[c.t["resolved"]].calls())))]
+        stores = field_stores(st_, "current_table_iter")
+        bad = [s[2].get("line") for s in stores if not st_.must_pass(s[0], through_nodes=saves)]
+        R.check(rule, st_.path + "|status-kept-before-the-table-iterator-is-replaced", bool(stores) and bool(saves) and not bad, where(st_),
+                "every assignment to current_table_iter is preceded by reading the status of the iterator it replaces",
+                "stores at line(s) %s without a preceding status read" % bad if bad else "%d stores, %d status reads" % (len(stores), len(saves)))
+    R.floor(rule, "links of the status chain", n, 8)
